@@ -495,7 +495,88 @@ def run_C12(ctx):
                           {"kind": "compile-ladder", "row": x})
 
 
+def text_cases(ctx, fams, rate, tag):
+    consts = dict(BASE_CONSTS)
+    consts.update({"Fams": set(fams), "Seed": ctx.seed, "Rate": rate})
+    r = run_tlc(f"{ctx.prop}-{tag}", "MC_Text", consts, invariants=["Inv"], workers=10, timeout=2400)
+    if r.violation:
+        ctx.violation("MC_Text: specification-level law violated (round trip of Disasm o Asm, or decode of assembled bytes): " + r.violation[:300],
+                      {"kind": "tlc", "model": "MC_Text", "output": r.violation[:4000]})
+    ctx.add_tlc(f"MC_Text[{','.join(sorted(fams))}] rate=1/{rate}", r)
+    return r.replay
+
+
+def replay_texts(ctx, tag, recs, keep=None):
+    if not recs:
+        raise ToolError(f"no text records for {tag}")
+    path = os.path.join(ctx.workdir, f"{tag}.texts.ndjson")
+    open(path, "w").write("\n".join(json.dumps(x) for x in recs) + "\n")
+    rep_path = os.path.join(ctx.workdir, f"{tag}.report.json")
+    rv(["texts", "--cases", path, "--report", rep_path], timeout=3000)
+    rep = json.load(open(rep_path))
+    ctx.evaluations += rep["records"]
+    nviol = 0
+    for f in rep["failures"]:
+        reason = f["reason"]
+        if keep and not keep(f):
+            ctx.skip("failure-belongs-to-another-property", 1)
+            continue
+        nviol += 1
+        ctx.violation(reason, {"kind": "text", "record": f["record"], "observed": f["observed"]})
+    ctx.traces += rep["records"] - nviol
+    for s_ in rep["samples"]:
+        ctx.sample(s_)
+    return rep
+
+
+def run_C13(ctx):
+    recs = text_cases(ctx, ["asm"], 24 if ctx.quick else 1, "asm")
+    ctx.nontrivial = len({json.dumps(x["prog"]) for x in recs})
+    ctx.extra["denote_bytes"] = sum(1 for x in recs if x["exp"]["ok"])
+    ctx.extra["denote_nothing"] = sum(1 for x in recs if not x["exp"]["ok"])
+    # C13 is about the emitted encoding / refusal; a panic is C14's business but is also not a value
+    replay_texts(ctx, "asm", recs)
+
+
+def run_C14(ctx):
+    recs = [x for x in text_cases(ctx, ["asm"], 24 if ctx.quick else 1, "asm") if x["fam"] in ("a5", "a2", "a3", "a4")]
+    replay_texts(ctx, "literals", recs, keep=lambda f: "panicked" in f["reason"] or "killed" in f["reason"] or "no answer" in f["reason"])
+    n = 20000 if ctx.quick else 2000000
+    rep_path = os.path.join(ctx.workdir, "fuzz.report.json")
+    rv(["fuzz-asm", "--seed", str(ctx.seed), "--n", str(n), "--report", rep_path], timeout=3000)
+    rep = json.load(open(rep_path))
+    ctx.evaluations += rep["inputs"]
+    ctx.nontrivial = rep["distinct"] + len(recs)
+    ctx.extra["fuzz"] = {k: rep[k] for k in ("inputs", "distinct", "ok", "err")}
+    for s_ in rep["samples"]:
+        ctx.sample({"fuzz_input": s_})
+    for f in rep["failures"]:
+        ctx.violation(f"assemble({json.dumps(f['input'])[:120]}): {f['reason']}", {"kind": "fuzz", "input": f["input"]})
+
+
+def run_C15(ctx):
+    recs = text_cases(ctx, ["disasm"], 48 if ctx.quick else 2, "disasm")
+    ctx.nontrivial = len({json.dumps(x["bytes"]) for x in recs})
+    replay_texts(ctx, "disasm", recs, keep=lambda f: "round trip" not in f["reason"] or "entry" in f["reason"] or "panicked" in f["reason"])
+
+
+def run_C16(ctx):
+    recs = text_cases(ctx, ["disasm"], 48 if ctx.quick else 2, "disasm")
+    ctx.nontrivial = len({json.dumps(x["bytes"]) for x in recs})
+    ctx.extra["expressible_programs"] = sum(1 for x in recs if x["exp"]["expressible"])
+    ctx.extra["reassembled_ok"] = sum(1 for x in recs if x["exp"]["rt"]["ok"])
+    replay_texts(ctx, "roundtrip", recs, keep=lambda f: "round trip" in f["reason"] or "panicked" in f["reason"])
+
+
 CHECKS = {
+    "C13": {"level": "model_checking", "run": run_C13, "assumptions": ASSUME_COMMON + ["the harness's renderer (tokens -> text) is the only concrete-syntax step"],
+            "rule": "MC_Text asm families: every mnemonic x its operand shape(s) x registers {0,9,10,15,16,99} x offsets around +-32768 x immediates around +-2^31 x 4 spellings (decimal/hex, explicit sign); every mnemonic with every other shape's operands; non-mnemonics; multi-instruction sequences (order, error in the middle, mnemonic after an operand-less instruction); literal classes up to 40 digits; Asm!Assemble gives bytes or refusal, DecodeOK checked in the model; replayed through rbpf::assembler::assemble; distinct by token program"},
+    "C14": {"level": "exploration", "run": run_C14, "assumptions": ASSUME_COMMON,
+            "rule": "literal / shape / sequence classes of MC_Text (Asm!LitValue classifies every literal: decimal up to 40 digits, hex up to 20, signs, +-2^63 boundaries, huge register numbers, truncated operands) replayed for panics and time-outs, plus seeded string fuzzing (printable ASCII, arbitrary Unicode, token soup over a vocabulary with extreme literals, mutations of valid programs) in child processes with a 5 s watchdog; distinct = distinct input strings"},
+    "C15": {"level": "model_checking", "run": run_C15, "assumptions": ASSUME_COMMON + ["the harness's renderer (tokens -> text)"],
+            "rule": "MC_Text disasm family: every supported opcode (and tail_call) x register nibbles {0,1,9,10,15}^2 x 9 offsets incl. -32768 x 10 immediates incl. +-2^31 x 3 contexts (alone, between instructions, after a wide load; wide loads with distinct halves); Disasm!HL gives entry count, fields, 64-bit immediate, name and operand tokens; replayed through rbpf::disassembler::to_insn_vec; distinct by byte string"},
+    "C16": {"level": "model_checking", "run": run_C16, "assumptions": ASSUME_COMMON,
+            "rule": "the C15 programs: in the specification Assemble(desc(HL(p))) is computed and the RoundTrip law (identity on expressible programs, canonical form whenever accepted) is an invariant of MC_Text; on the implementation assemble(join(to_insn_vec(p).desc)) must give exactly the specified bytes / refusal; distinct by byte string"},
     "C12": {"level": "model_checking", "run": run_C12, "assumptions": ASSUME_COMMON + ["hook H2 reports the JIT's counted / emitted / buffer sizes"],
             "rule": "every accepted program of the MC_Safety universe (all programs up to MaxLen slots over 27 templates: dead code, back edges, last-instruction kinds, wide loads, helper and local calls) compiled twice with the x86-64 JIT on the 4 VM kinds and with Cranelift, with helper sets {} and {1}; expected Ok/Err from Verifier!CompileOk; seeded random accepted programs (arbitrary opcodes / registers / displacements) validated by TLC (TraceCompile); size ladder 1..999,999 instructions incl. every size around the code buffer's first page boundary; non-trivial = accepted programs"},
     "C10": {"level": "model_checking", "run": run_C10, "assumptions": ASSUME_COMMON,
@@ -527,6 +608,17 @@ def replay(prop, path):
     rec = json.load(open(path))
     core.build_harness()
     kind = rec.get("kind", "exec")
+    if kind == "text":
+        tmp = os.path.join(WORK, "replay_one.ndjson")
+        open(tmp, "w").write(json.dumps(rec["record"]) + "\n")
+        rv(["texts", "--cases", tmp, "--report", os.path.join(WORK, "replay_one.report.json")], check=False)
+        rep = json.load(open(os.path.join(WORK, "replay_one.report.json")))
+        print(json.dumps([f["reason"] for f in rep["failures"]] or "agrees with the specification", indent=1)[:3000])
+        return 1 if rep["fail"] else 0
+    if kind == "fuzz":
+        tmp = os.path.join(WORK, "replay_fuzz.txt")
+        print("input:", json.dumps(rec["input"]))
+        return 1
     if kind == "verdict":
         tmp = os.path.join(WORK, "replay_one.ndjson")
         open(tmp, "w").write(json.dumps(rec["record"]) + "\n")
@@ -613,5 +705,19 @@ MANIFEST_TEXT.update({
     "C12": {"technique": "TLA+ compile contract (Verifier!CompileOk) evaluated by TLC on all small programs and on recorded compilations (trace validation); JIT size hook",
             "text": "TLC enumerates every program up to the bound over the template alphabet and states for each accepted one whether compilation must succeed; the harness compiles each with both compilers, all VM kinds and two helper sets, twice, under catch_unwind in a child, and compares; random accepted programs and a size ladder extend the reach; the JIT's sizing pass must count exactly what the emission pass writes.",
             "note": NOTE_COMMON + " Out-of-bounds writes by the code generators are observed only through the size hook, the emit assertions and process crashes."},
+})
+MANIFEST_TEXT.update({
+    "C13": {"technique": "TLA+ assembler function (Asm.tla) evaluated by TLC on token-level cases; rendered text replayed through assemble()",
+            "text": "The specification maps abstract syntax (mnemonic, operands, literals as digit strings with overflow-detecting evaluation) to instruction slots; TLC enumerates mnemonics x shapes x boundary operands x spellings and checks that accepted output decodes back to what was written; the real assembler must produce the same bytes or a refusal for the rendered text.",
+            "note": NOTE_COMMON},
+    "C14": {"technique": "TLA+ literal/shape classes (Asm.tla) for the oracle and boundary classes, plus seeded string fuzzing with a watchdog",
+            "text": "The input space is all strings, so this is exploration: the specification contributes the classification of numeric literals and operand shapes (every class is evaluated by TLC and replayed), string-level fuzzing covers what the abstract syntax cannot express; any panic, signal or time-out is a violation.",
+            "note": NOTE_COMMON},
+    "C15": {"technique": "TLA+ disassembler function (Disasm.tla) evaluated by TLC; entries compared with to_insn_vec()",
+            "text": "For every enumerated program the specification gives the entries (fields, merged 64-bit immediate, name, operand text as tokens); the real disassembler's output must match field by field and character by character, without panicking.",
+            "note": NOTE_COMMON},
+    "C16": {"technique": "round-trip law checked by TLC on the composition Asm o Disasm of the two TLA+ specifications, and replayed on the implementation",
+            "text": "RoundTrip is an invariant of the bounded model (a statement about the two specifications fitting together); since C13 and C15 bind each tool to its specification the law carries over, and it is additionally checked directly on the code for every enumerated program.",
+            "note": NOTE_COMMON},
 })
 NOT_APPLICABLE = {}
